@@ -145,6 +145,8 @@ async fn run_action(a: ActionSpec) {
                 Behaviour::Silent
             } else if b == "reject_startup" {
                 Behaviour::RejectStartup
+            } else if b == "errors" {
+                Behaviour::Errors
             } else if let Some(ms) = b.strip_prefix("slow:") {
                 Behaviour::Slow(ms.parse().unwrap_or(100))
             } else {
